@@ -1,10 +1,10 @@
 """C18 — converting a formula string to a tree preserves the function."""
-import io, contextlib, math, os, re, sys, time
+import io, contextlib, json, math, os, re, sys, time
 from fractions import Fraction
 import common, extract
 import oracle_tree as ot
 
-LEAN_MODULE = ["ESRVerif.Props.C18", "ESRVerif.Props.C18b"]
+LEAN_MODULE = ["ESRVerif.Props.C18", "ESRVerif.Props.C18b", "ESRVerif.Props.C18c"]
 LEVEL = "other"
 LEVEL_TEXT = ("Lean theorems over a hand model of DecoratedNode.__init__/to_list/count_nodes, of the relabelling pass of "
               "fit_from_string/string_to_aifeyn and of the choice string_to_node makes among its four parse variants (special-case tables, string "
@@ -15,16 +15,28 @@ LEVEL_TEXT = ("Lean theorems over a hand model of DecoratedNode.__init__/to_list
               "variants raise; float replacement keeps every numeric label unless requested and never for direct children of pow, parameters "
               "numbered in order. PARTIAL: which sympy tree each of sympify/kernS/powsimp/factor/evalf produces for a string, and that str() of a "
               "sympy number denotes its value, are third-party behaviour (the four candidate trees are input of the model; assumed, sampled); two "
-              "to_list branches that emit a binary label with one operand are excluded by hypothesis and reported as a defect.")
+              "to_list branches that emit a binary label with one operand are excluded by hypothesis and reported as a defect.  "
+              "The models are functions of their arguments; that the code is one is a checked obligation (Props/C18c): string_api_call_local - decided on a table "
+              "regenerated from fit_single.py (cells the string API touches across calls, from the C16 cell analysis; origin of every list it rewrites in place) - no carried "
+              "cell is changed by the string API's own code unless every read of it is copied first, and the relabelled list is created in the same call on every path; "
+              "relabel_history_independent (a memo that returns copies: every history of calls returns what fresh calls return) and shared_list_leaks (a memo that returns "
+              "the cached list: replace_floats=True then False returns the float-replaced labels).  Sampled on the real code: call-sequence histories in one process, every "
+              "ordered pair of option settings per formula, each call against the same call as the first call of a fresh process.")
 TECHNIQUE = ("Lean 4 proof on a hand model + regenerated tables; model-code correspondence on grammar-generated formulas: ALL FOUR candidate trees of "
              "the real run (the trees string_to_node itself saw, via a memoised string_to_expr) are serialised and fed to the model's selection, "
              "compared with the real string_to_node under six flag settings and with the string API end to end; independent prefix-tree evaluator "
-             "vs sympy.lambdify of the formula on the real string API; order-insensitive minimum-node-count oracle on the real string_to_node")
-RULE = ("formula strings drawn from a grammar (x, a0..a3, integers, floats, + - * / ** unary minus, reciprocals, pow with symbolic and numeric "
+             "vs sympy.lambdify of the formula on the real string API; order-insensitive minimum-node-count oracle on the real string_to_node; "
+             "Lean decision over the regenerated cell / alias table of the string API + induction over call histories of a copying memo; PRNG call-sequence histories of "
+             "string_to_aifeyn / fit_from_string (optimiser stubbed) / string_to_node in one process (Euler circuit over the 8 option settings per formula: all 64 ordered "
+             "pairs on every seed) against fresh-process references")
+RULE = ("call histories: one case = one (basis, formula) of a history = 65 calls covering all 64 ordered pairs of the 8 option settings; "
+        "formula strings drawn from a grammar (x, a0..a3, integers, floats, + - * / ** unary minus, reciprocals, pow with symbolic and numeric "
         "exponents, the unary operators of the basis) for each of the six shipped bases; distinct = (basis, formula); non-trivial = at least "
         "three labels and at least one evaluation point where all power bases are positive")
 EXPLANATION = LEVEL_TEXT
-TRUSTED = ["hand model ESRVerif/Model/ToList.lean, Model/ToListSelect.lean (tied by correspondence on the serialised sympy trees: class name, is_number, is_symbol, str, exact value, args / as_two_terms)",
+TRUSTED = ["harness/extractors/strapi.py over harness/extractors/memstate.py (which cells survive a call and who touches them: C16's analysis; origin of the in-place rewritten lists: a result of .to_list(), a comprehension / display / [..]*n, list(), sorted(), .copy(), [:], copy.copy/deepcopy, a local alias of such, a helper of fit_single.py all of whose returns are such and that does not also store the object into a cell; label lists hold strings, so a shallow copy is a copy; anything else fails closed)",
+           "harness/workers/strapi_seq.py, harness/strapi_hist.py (histories and fresh-process references: a forked child of an interpreter that imported ESR and never called the API)",
+           "hand model ESRVerif/Model/ToList.lean, Model/ToListSelect.lean (tied by correspondence on the serialised sympy trees: class name, is_number, is_symbol, str, exact value, args / as_two_terms)",
            "harness/extractors/tolist.py + harness/extractors/_norm_c18.py (special-case table, to_list branches, label renaming, the skeleton of string_to_node, check_operators' chain, call-site flags: each function is run symbolically into a normal form that is matched against the shape the Lean model has; the normalisations, all value-preserving and never dropping or adding an evaluation that can raise, are: substitution of pure locals / self attributes / list items by the expression assigned (renames, hoisted temporaries, tuple and chained assignment, tuple unpacking of as_two_terms / string_to_node / check_tree), conditional expression = if/else, early return = result variable, else-after-return, pass = return None, guard inversion, negation normal form (double negation, De Morgan, not == / != / is / in), str(<int>) = literal, tuple = list after `in`, range(len(L)) = enumerate(L) item loops, comprehension = append / += loop, one level of private-helper inlining, literal-index or literal-tuple-loop forms of the four try blocks (unrolled, constant tests folded), 'a'+str(k) = 'a%d'%k = 'a{}'.format(k) = f'a{k}' for an enumerate index; anything else fails closed)",
            "class invariant used by the translator: every DecoratedNode built from an expression has the attributes __init__ assigns unconditionally (read off __init__ on every run), a basis is a list of three lists; sympy's as_two_terms returns a pair, string_to_node / check_tree return triples",
            "sympy 1.14: sympify/kernS/evalf/powsimp/factor/str/== on numbers (which tree each parse variant yields is observed, not modelled)",
@@ -40,7 +52,7 @@ ASSUMPTIONS = ["str() of a sympy number denotes its value (Float: 15 significant
                "an integer label beyond the range of a double (>= 2^1024 - 2^970) is not a number for generator.is_float (float(<int>) raises OverflowError): model and in-basis oracle follow the code"]
 # tables whose committed version may stand in as a hand-written model when the translator cannot read the source;
 # value = the correspondence that then ties it to the code (common.prove / common.decide)
-FALLBACK = {'ToList': 'real DecoratedNode / to_list / relabelling / check_operators / string_to_node (its string_to_expr calls traced in order, six flag settings) and the string API on grammar formulas vs the Lean to_list, relabel and selection models built from the committed table, at thorough depth', 'Shape': 'basis tables: labels_to_shape correspondence'}
+FALLBACK = {'StrApi': 'call-sequence histories of the real string API in one process (every ordered pair of option settings on every formula of the pool, each call against the same call as the first call of a fresh process), at thorough depth', 'ToList': 'real DecoratedNode / to_list / relabelling / check_operators / string_to_node (its string_to_expr calls traced in order, six flag settings) and the string API on grammar formulas vs the Lean to_list, relabel and selection models built from the committed table, at thorough depth', 'Shape': 'basis tables: labels_to_shape correspondence'}
 MODELLED = ["generator.py:DecoratedNode.__init__", "generator.py:DecoratedNode.to_list", "generator.py:DecoratedNode.count_nodes",
             "generator.py:DecoratedNode.is_unity", "generator.py:string_to_node", "generator.py:string_to_expr", "generator.py:labels_to_shape",
             "generator.py:is_float", "fit_single.py:fit_from_string", "fit_single.py:string_to_aifeyn", "generator.py:check_tree",
@@ -419,6 +431,27 @@ def _exc(e):
     return type(e).__name__
 
 
+def _exd(e):
+    """an exception as data: type, where (innermost frame), text"""
+    import traceback
+    tb = traceback.extract_tb(e.__traceback__)
+    where = "?"
+    if tb:
+        fr = tb[-1]
+        where = "%s:%d in %s" % (fr.filename.split("/esr/")[-1] if "/esr/" in fr.filename else os.path.basename(fr.filename), fr.lineno, fr.name)
+    return dict(exc=type(e).__name__, where=where, text=str(e)[:200])
+
+
+def _rs(r):
+    return "%s at %s: %s" % (r.get("exc"), r.get("where", "?"), r.get("text", "")) if r.get("where") else str(r.get("exc"))
+
+
+def _hx(phase, e):
+    """an exception raised by HARNESS code inside a job: a broken obligation of that phase, never a crash"""
+    d = _exd(e)
+    return dict(phase=phase, type=d["exc"], where=d["where"], text=d["text"])
+
+
 def _ops_sig(labels):
     return ",".join(sorted(set(l for l in labels if ot.number_value(l) is None and not re.match(r"(a\d+|x)\Z", l))))
 
@@ -485,19 +518,28 @@ def _alarm(signum, frame):
 JOB_TIMEOUT_S = 8.0
 
 
+def _blank(job, mode, why):
+    formula, bname, basis, points, _ = job
+    bad = dict(ok=False, exc=why, where="harness", text=why)
+    return dict(f=formula, b=bname, mode=mode, fails=[], interp=0, s2n=dict(bad), ev=dict(bad), F0=dict(bad), F1=dict(bad), A0=dict(bad), A1=dict(bad),
+                admissible=0, lines=[], cands={}, sel={}, trace={}, sel_fails=[], harness_exc=[])
+
+
 def process(job):
-    """one formula under a wall-clock limit (sympy can take minutes on a pathological power tower)"""
+    """one formula under a wall-clock limit (sympy can take minutes on a pathological power tower).  NEVER raises: whatever
+    the real code raises is recorded per call by _process (type, where, text) and judged by the oracle; whatever harness
+    code raises comes back in rec["harness_exc"] and becomes a broken obligation (ctx.disagree) in _compare."""
     import signal
     old = signal.signal(signal.SIGALRM, _alarm)
     signal.setitimer(signal.ITIMER_REAL, JOB_TIMEOUT_S)
     try:
         return _process(job)
     except _Timeout:
-        formula, bname, basis, points, mode = job
-        return dict(f=formula, b=bname, mode="timeout", fails=[], interp=0, s2n=dict(ok=False, exc="harness-timeout"),
-                    ev=dict(ok=False, exc="harness-timeout"), F0=dict(ok=False, exc="harness-timeout"), F1=dict(ok=False, exc="harness-timeout"),
-                    A0=dict(ok=False, exc="harness-timeout"), A1=dict(ok=False, exc="harness-timeout"), admissible=0, lines=[],
-                    cands={}, sel={}, trace={}, sel_fails=[])
+        return _blank(job, "timeout", "harness-timeout")
+    except Exception as e:
+        rec = _blank(job, "harness-exc", "harness-exception")
+        rec["harness_exc"].append(_hx("process", e))
+        return rec
     finally:
         signal.setitimer(signal.ITIMER_REAL, 0)
         signal.signal(signal.SIGALRM, old)
@@ -520,21 +562,21 @@ def _process(job):
         rec["s2n"] = dict(ok=True, labels=[str(l) for l in lab0] if lab0 is not None else None, c=int(c0), ser=serialise(expr0),
                           count=int(nodes0.count_nodes(basis)))
     except Exception as e:
-        rec["s2n"] = dict(ok=False, exc=_exc(e))
+        rec["s2n"] = dict(ok=False, **_exd(e))
     # 2. evalf=True parse as the string API uses it
     try:
         expr1, nodes1, c1 = _silent(g.string_to_node, formula, basis, evalf=True)
         lab1 = nodes1.to_list(basis)
         rec["ev"] = dict(ok=True, labels=[str(l) for l in lab1], c=int(c1), ser=serialise(expr1))
     except Exception as e:
-        rec["ev"] = dict(ok=False, exc=_exc(e))
+        rec["ev"] = dict(ok=False, **_exd(e))
     # 3. the string API
     for key, rf in (("F0", False), ("F1", True)):
         try:
             r = _silent(fs.fit_from_string, formula, basis, None, replace_floats=rf)
             rec[key] = dict(ok=True, labels=[str(l) for l in r[2]])
         except Exception as e:
-            rec[key] = dict(ok=False, exc=_exc(e))
+            rec[key] = dict(ok=False, **_exd(e))
     for key, rf in (("A0", False), ("A1", True)):
         try:
             _ST["aif_labels"] = None
@@ -544,11 +586,19 @@ def _process(job):
             if _ST["aif_labels"] is not None:          # the relabelling pass finished; tree_to_aifeyn raised afterwards
                 rec[key] = dict(ok=True, labels=[str(l) for l in _ST["aif_labels"]], comp=None, post_exc=_exc(e))
             else:
-                rec[key] = dict(ok=False, exc=_exc(e))
+                rec[key] = dict(ok=False, **_exd(e))
     rec["admissible"] = 0
-    _selection(rec, g, formula, basis)
+    rec["harness_exc"] = []
+    try:
+        _selection(rec, g, formula, basis)
+    except Exception as e:                              # harness code (the real calls inside are caught one by one)
+        rec["harness_exc"].append(_hx("selection", e))
+        rec.setdefault("cands", {}); rec.setdefault("sel", {}); rec.setdefault("trace", {}); rec.setdefault("sel_fails", [])
     if mode == "full":
-        _oracle(rec, formula, basis, points, [expr0, expr1])
+        try:
+            _oracle(rec, formula, basis, points, [expr0, expr1])
+        except Exception as e:                          # what the oracle found before it broke stays in rec["fails"]
+            rec["harness_exc"].append(_hx("oracle", e))
     rec["lines"] = sorted(_ST.get("lines", ()))
     return rec
 
@@ -649,7 +699,7 @@ def _selection(rec, g, formula, basis):
                 ser = None
             rec["sel"][cfg] = dict(ok=True, labels=[str(l) for l in labels] if labels is not None else None, c=int(c), ser=ser)
         except Exception as ex:
-            rec["sel"][cfg] = dict(ok=False, exc=_exc(ex))
+            rec["sel"][cfg] = dict(ok=False, **_exd(ex))
         rec["trace"][cfg] = _ST["s2e_trace"]
         _ST["s2e_trace"] = None
     rec["sel_fails"] = _selection_oracle(rec, formula, basis)
@@ -714,7 +764,7 @@ def _oracle(rec, formula, basis, points, chosen):
     # --- string_to_node(...).to_list(...)
     s = rec["s2n"]
     if not s["ok"]:
-        fails.append(("S2N:raises:%s" % s["exc"], "string_to_node(%r) raised %s" % (formula, s["exc"])))
+        fails.append(("S2N:raises:%s" % s["exc"], "string_to_node(%r) raised %s" % (formula, _rs(s))))
     elif s["labels"] is None:
         fails.append(("S2N:returns-none", "to_list returned None for %r" % formula))
     else:
@@ -734,7 +784,7 @@ def _oracle(rec, formula, basis, points, chosen):
         r = rec[key]
         if not r["ok"]:
             fails.append(("%s:raises:%s%s" % (api, r["exc"], why(r["exc"])),
-                          "%s(%r) raised %s; to_list gave %r" % ("fit_from_string" if api == "FIT" else "string_to_aifeyn", formula, r["exc"], raw)))
+                          "%s(%r) raised %s; to_list gave %r" % ("fit_from_string" if api == "FIT" else "string_to_aifeyn", formula, _rs(r), raw)))
             continue
         _check_labels(api, r["labels"], basis, pts, fails, rename=False)
         if r.get("post_exc"):
@@ -750,7 +800,7 @@ def _oracle(rec, formula, basis, points, chosen):
         l0 = r0["labels"]
         if not r["ok"]:
             fails.append(("%s:raises:%s" % (api, r["exc"]),
-                          "replace_floats=True on %r raised %s (labels without replacement: %r)" % (formula, r["exc"], l0)))
+                          "replace_floats=True on %r raised %s (labels without replacement: %r)" % (formula, _rs(r), l0)))
             continue
         l1 = r["labels"]
         try:
@@ -791,6 +841,8 @@ def _oracle(rec, formula, basis, points, chosen):
             e2 = {"x": env["x"]}
             for nk, old in assign.items():
                 v = ot.number_value(old)
+                if v is None and old not in env:
+                    return None                        # a parameter the formula does not have: judged by parameter-invented
                 e2[nk] = env[old] if v is None else v
             return e2
         _check_labels(api, l1, basis, pts, fails, rename=False, param_env=penv)
@@ -847,6 +899,190 @@ def _is_in_second(labels, basis, p, j):
     return has(n[3])
 
 
+
+# --------------------------------------------------------------------------------------------------------------
+# call-sequence histories of the string API in ONE process (every ordered pair of option settings on every formula)
+# --------------------------------------------------------------------------------------------------------------
+
+import strapi_hist as sh
+
+# the option settings a history runs on each of its formulas: every ORDERED pair (the same setting twice included) occurs
+# as two consecutive calls on that formula, on every seed (sh.euler_pairs)
+HIST_KINDS = [dict(fn="fit", rf=False), dict(fn="fit", rf=True), dict(fn="aif", rf=False), dict(fn="aif", rf=True),
+              dict(fn="s2n", evalf=False, check_ops=False, allow_eval=True), dict(fn="s2n", evalf=True, check_ops=False, allow_eval=True),
+              dict(fn="s2n", evalf=True, check_ops=True, allow_eval=True), dict(fn="s2n", evalf=False, check_ops=False, allow_eval=False)]
+# constants outside / inside exponents, gapped parameter names, nothing to replace (upstream's own example), a constant numerator
+HIST_DESIGNED = ["a0 + 0.5*x", "a0*x**2.5 + 1.5", "a1*x + a3", "pow(x, 0.5)*a2 + 2", "a0 + a1*x**3", "2.5/(a1 + x)"]
+HIST_FIELDS = {"fit": ["labels", "handed"], "aif": ["labels", "aifeyn", "comp"], "s2n": ["labels", "comp", "count", "expr"]}
+
+
+def _kind_text(c):
+    if c["fn"] == "s2n":
+        return "string_to_node(%r, evalf=%s, check_ops=%s, allow_eval=%s).to_list()" % (c["formula"], c["evalf"], c["check_ops"], c["allow_eval"])
+    return "%s(%r, replace_floats=%s)" % ("fit_from_string" if c["fn"] == "fit" else "string_to_aifeyn", c["formula"], c["rf"])
+
+
+def _hist_plan(ctx, bases, deep):
+    """-> [dict(name, bname, basis, formulas, calls=[call], kinds_seq per formula)]"""
+    rng = ctx.rng
+    nh = int(os.environ.get("C18_HIST", 12 if deep else 4))
+    plans = []
+    for h in range(nh):
+        bname, basis = bases[h % len(bases)] if h else next(((n, b) for n, b in bases if n == "core_maths"), bases[0])
+        forms = list(HIST_DESIGNED)
+        tries = 0
+        while len(forms) < len(HIST_DESIGNED) + 3 and tries < 60:
+            tries += 1
+            f = gen_formula(rng, basis, rng.choice([1, 2, 2]), False)
+            if len(f) <= 40 and f not in forms and re.search(r"\bx\b", f) and re.search(r"\d", f):
+                forms.append(f)
+        seqs = [sh.euler_pairs(len(HIST_KINDS), rng) for _ in forms]
+        assert all(sh.covers_all_pairs(q, len(HIST_KINDS)) for q in seqs)
+        order = sh.interleave(seqs, rng)
+        calls = [dict(HIST_KINDS[k], formula=forms[fi], basis=basis) for fi, k in order]
+        plans.append(dict(name="h%d" % h, bname=bname, basis=basis, formulas=forms, calls=calls, order=order))
+    return plans
+
+
+def _hist_specs(plans):
+    specs = []
+    for pl in plans:
+        specs.append((pl["name"], dict(mode="labels", fork=False, tasks=[pl["calls"]])))
+        distinct = [dict(HIST_KINDS[k], formula=f, basis=pl["basis"]) for f in pl["formulas"] for k in range(len(HIST_KINDS))]
+        pl["fresh_calls"] = distinct
+        specs.append((pl["name"] + "_fresh", dict(mode="labels", fork=True, tasks=[[c] for c in distinct], timeout=60)))
+    return specs
+
+
+def _hist_start(ctx, bases, deep):
+    """plan the histories (ctx.rng) and start their workers; collected by _hist_finish after the formula jobs"""
+    plans = _hist_plan(ctx, bases, deep)
+    tmp = os.path.join(ctx.tmp, "c18hist")
+    live = []
+    try:
+        for name, spec in _hist_specs(plans):
+            live.append(sh.launch(ctx.env(), tmp, name, spec))
+    except Exception as e:
+        ctx.disagree("harness:history", "could not start the history workers: %r" % (e,))
+    return plans, live
+
+
+def _hist_diff(c, got, want):
+    """-> None or (field, text)"""
+    if not want.get("ok"):
+        if got.get("ok") or got.get("exc") != want.get("exc"):
+            return "outcome", "returns %s in the history but raises %s as the first call of a fresh process" % (
+                {k: got.get(k) for k in HIST_FIELDS[c["fn"]]} if got.get("ok") else "raises " + _rs(got), _rs(want))
+        return None
+    if not got.get("ok"):
+        return "raises:%s" % got.get("exc"), "raises %s in the history but returns %r as the first call of a fresh process" % (_rs(got), {k: want.get(k) for k in HIST_FIELDS[c["fn"]]})
+    for k in HIST_FIELDS[c["fn"]]:
+        a, b = got.get(k), want.get(k)
+        same = (a == b) if not isinstance(b, float) else (a is not None and (a == b or abs(a - b) <= 1e-12 * max(1.0, abs(b))))
+        if not same:
+            return k, "%s = %r in the history, %r as the first call of a fresh process" % (k, a, b)
+    return None
+
+
+def _hist_judge_one(pl, hres, fres):
+    """-> [(key, what, replay calls)] ; the first differing call per (formula, setting)"""
+    fresh = {}
+    for c, r in zip(pl["fresh_calls"], fres):
+        fresh[json.dumps(c, sort_keys=True)] = r[0]
+    out = []
+    seen = set()
+    for i, (c, r) in enumerate(zip(pl["calls"], hres)):
+        want = fresh[json.dumps(c, sort_keys=True)]
+        d = _hist_diff(c, r, want)
+        if d is None:
+            continue
+        sig = (c["formula"], json.dumps({k: v for k, v in c.items() if k not in ("formula", "basis")}, sort_keys=True))
+        if sig in seen:
+            continue
+        seen.add(sig)
+        prior = [q for q in pl["calls"][:i] if q["formula"] == c["formula"]]
+        out.append(dict(index=i, call=c, field=d[0], text=d[1], prior=prior, got=r, want=want))
+    return out
+
+
+def _hist_shrink(ctx, pl, bad):
+    """the shortest reproducing call sequence: (one earlier call on the same formula, the failing call) if some such pair
+    reproduces the difference in a fresh process, else the whole prefix of the history"""
+    cands = []
+    for b in bad:
+        seen = []
+        for q in reversed(b["prior"]):
+            if q not in seen:
+                seen.append(q)
+        b["pairs"] = seen[:len(HIST_KINDS) + 2]
+        cands += [[q, b["call"]] for q in b["pairs"]]
+    if not cands:
+        return
+    try:
+        res, err = sh.collect(sh.launch(ctx.env(), os.path.join(ctx.tmp, "c18hist"), pl["name"] + "_shrink",
+                                        dict(mode="labels", fork=True, tasks=cands, timeout=60)), 600)
+    except Exception as e:
+        res, err = None, repr(e)
+    if res is None:
+        return
+    k = 0
+    for b in bad:
+        for q in b["pairs"]:
+            r = res[k]
+            k += 1
+            if "replay_calls" not in b and _hist_diff(b["call"], r[1], b["want"]) is not None:
+                b["replay_calls"] = [q, b["call"]]
+
+
+def _hist_finish(ctx, plans, live, timeout):
+    stat = dict(histories=len(plans), calls=0, fresh_references=0, settings=len(HIST_KINDS), ordered_pairs_per_formula=len(HIST_KINDS) ** 2,
+                formulas=0, differences=0, raising_calls=0, wall_s=0.0, worker_errors=[])
+    results = {}
+    for h in live:
+        results[h["name"]] = sh.collect(h, timeout)
+        stat["wall_s"] = max(stat["wall_s"], h.get("wall_s", 0.0))
+    for pl in plans:
+        hres, e1 = results.get(pl["name"], (None, "not started"))
+        fres, e2 = results.get(pl["name"] + "_fresh", (None, "not started"))
+        if e1 or e2 or hres is None or fres is None:
+            stat["worker_errors"].append(str(e1 or e2)[:300])
+            ctx.disagree("harness:history", "history %s (basis %s): %s" % (pl["name"], pl["bname"], str(e1 or e2)[:400]))
+            continue
+        try:
+            hres = hres[0]
+            stat["calls"] += len(hres)
+            stat["fresh_references"] += len(fres)
+            stat["formulas"] += len(pl["formulas"])
+            stat["raising_calls"] += sum(1 for r in hres if not r.get("ok"))
+            bad = _hist_judge_one(pl, hres, fres)
+            if bad:
+                _hist_shrink(ctx, pl, bad)
+            for f in pl["formulas"]:
+                ctx.case(("history", pl["bname"], f), nontrivial=True, n=len(HIST_KINDS) ** 2 + 1)
+            for b in bad:
+                stat["differences"] += 1
+                c = b["call"]
+                calls = b.get("replay_calls") or (b["prior"] + [c])
+                ctx.fail("HIST:%s%s:%s" % (c["fn"], ":rf=%d" % int(c["rf"]) if "rf" in c else "", b["field"]),
+                         "%s: %s [basis %s; call %d of a history in one process; earlier calls on this formula: %d; reproducing sequence: %s]" % (
+                             _kind_text(c), b["text"], pl["bname"], b["index"], len(b["prior"]), " ; ".join(_kind_text(q) for q in calls[-3:])),
+                         dict(kind="history", mode="labels", basis_name=pl["bname"], calls=calls))
+            # what the property says about one call, on the calls of the history themselves (no fresh process involved):
+            # without replacement no parameter the formula does not name
+            for c, r in zip(pl["calls"], hres):
+                if r.get("ok") and c["fn"] in ("fit", "aif") and not c["rf"] and r.get("labels"):
+                    newp = [l for l in r["labels"] if re.match(r"a\d+\Z", l) and not re.search(r"\b%s\b" % l, c["formula"])]
+                    if newp and not any(b["call"] == c for b in bad):
+                        ctx.fail("HIST:%s:parameter-invented" % c["fn"], "%s in a history returned labels %r with %r which the formula does not name" % (_kind_text(c), r["labels"], newp),
+                                 dict(kind="history", mode="labels", basis_name=pl["bname"], calls=pl["calls"][:pl["calls"].index(c) + 1]))
+            if pl is plans[0]:
+                ctx.sample(dict(kind="history", basis=pl["bname"], formulas=pl["formulas"], first_calls=[_kind_text(c) for c in pl["calls"][:6]],
+                                first_results=[r.get("labels", r.get("exc")) for r in hres[:6]]))
+        except Exception as e:
+            ctx.disagree("harness:history", "judging history %s: %r" % (pl["name"], _exd(e)))
+    ctx.extra["call_histories"] = stat
+    return stat
+
 # --------------------------------------------------------------------------------------------------------------
 # run
 # --------------------------------------------------------------------------------------------------------------
@@ -899,12 +1135,25 @@ def _jobs(ctx, n, bases):
 
 
 def _run_jobs(jobs, nproc):
-    if nproc <= 1 or len(jobs) < 40:
-        return [process(j) for j in jobs]
-    import multiprocessing as mp
-    ctxm = mp.get_context("fork")
-    with ctxm.Pool(nproc) as pool:
-        return pool.map(process, jobs, chunksize=max(1, len(jobs) // (nproc * 8)))
+    """-> records, one per job.  `process` returns every exception as data; should the pool itself break (a worker killed,
+    a record that cannot be pickled) the jobs are re-run one by one in this process, and a job that still cannot be
+    run gets a harness-exc record."""
+    if nproc > 1 and len(jobs) >= 40:
+        import multiprocessing as mp
+        try:
+            with mp.get_context("fork").Pool(nproc) as pool:
+                return pool.map(process, jobs, chunksize=max(1, len(jobs) // (nproc * 8)))
+        except Exception as e:
+            _ST["pool_exc"] = _hx("pool", e)
+    out = []
+    for j in jobs:
+        try:
+            out.append(process(j))
+        except Exception as e:
+            rec = _blank(j, "harness-exc", "harness-exception")
+            rec["harness_exc"].append(_hx("process", e))
+            out.append(rec)
+    return out
 
 
 def _anchored_lines(stage):
@@ -942,12 +1191,25 @@ def run(ctx):
     jobs, pts = _jobs(ctx, n, bases)
     nproc = int(os.environ.get("C18_PROCS", min(12, os.cpu_count() or 1)))
     t0 = time.time()
+    hplans, hlive = [], []
+    try:
+        hplans, hlive = _hist_start(ctx, bases, deep)            # own fresh interpreters; collected below
+    except Exception as e:
+        ctx.disagree("harness:history", "planning the call histories: %r" % (_exd(e),))
     try:
         recs = _run_jobs(jobs, nproc)
     finally:
         _uninstall()
     ctx.extra["real_code_wall_s"] = round(time.time() - t0, 1)
+    # the histories are judged first: their replays (call sequences) head the list of reported failures
+    hstat = dict(calls=0, differences=0, worker_errors=["not run"])
+    try:
+        hstat = _hist_finish(ctx, hplans, hlive, 3600 if deep else 900)
+    except Exception as e:
+        ctx.disagree("harness:history", "collecting the call histories: %r" % (_exd(e),))
     _compare(ctx, jobs, recs, pts)
+    ctx.extra["corr_obligations"] = ctx.extra.get("corr_obligations", 6) + 1
+    ctx.extra["corr_discharged"] = ctx.extra.get("corr_discharged", 0) + int(hstat.get("calls", 0) > 0 and not hstat.get("worker_errors") and not hstat.get("differences"))
 
 
 def _tables(ctx):
@@ -1217,10 +1479,18 @@ def _compare(ctx, jobs, recs, pts):
     modes = {}
     per_basis = {}
     n_sel_fail = 0
+    n_hx = 0
+    if _ST.get("pool_exc"):
+        hx = _ST.pop("pool_exc")
+        ctx.disagree("harness:pool", "the worker pool broke (%s at %s: %s); the jobs were re-run one by one" % (hx["type"], hx["where"], hx["text"]))
     for job, rec in zip(jobs, recs):
         f, bname, basis, _, _ = job
         modes[rec["mode"]] = modes.get(rec["mode"], 0) + 1
-        if rec["mode"] == "timeout":
+        for hx in rec.get("harness_exc") or ():
+            n_hx += 1
+            ctx.disagree("harness:%s" % hx["phase"], "formula %r basis %s: harness code raised %s at %s: %s (the calls of the real code and what the oracle "
+                         "had found before are still judged)" % (f, bname, hx["type"], hx["where"], hx["text"]))
+        if rec["mode"] in ("timeout", "harness-exc"):
             continue
         per_basis[bname] = per_basis.get(bname, 0) + 1
         n_interp += rec.get("interp", 0)
@@ -1263,6 +1533,7 @@ def _compare(ctx, jobs, recs, pts):
     ctx.extra["correspondence"]["string_to_node_select"] = dict(ops=sel_n["select"], mismatches=sel_bad["select"])
     ctx.extra["correspondence"]["string_api_from_four_candidates"] = dict(ops=sel_n["api"], mismatches=sel_bad["api"])
     ctx.extra["correspondence"]["evalLabels_vs_oracle"] = dict(ops=len(ev_ops), mismatches=ev_bad)
+    ctx.extra["harness_exceptions_in_jobs"] = n_hx
     ctx.extra["formulas"] = len(jobs)
     ctx.extra["formulas_by_mode"] = modes
     ctx.extra["formulas_by_basis"] = per_basis
@@ -1282,8 +1553,35 @@ def _compare(ctx, jobs, recs, pts):
     ctx.extra["exhaustive"] = False
 
 
+def _replay_history(ctx, rp):
+    calls = rp["calls"]
+    distinct = []
+    for c in calls:
+        if c not in distinct:
+            distinct.append(c)
+    tmp = os.path.join(ctx.tmp, "c18hist")
+    out = sh.run_many(ctx.env(), tmp, [("replay", dict(mode=rp.get("mode", "labels"), fork=False, tasks=[calls])),
+                                       ("replay_fresh", dict(mode=rp.get("mode", "labels"), fork=True, tasks=[[c] for c in distinct], timeout=120))], 900)
+    (hres, e1), (fres, e2) = out["replay"], out["replay_fresh"]
+    if e1 or e2:
+        print("replay: workers failed: %s" % (e1 or e2,))
+        return False
+    ok = True
+    print("one process, in this order:")
+    for c, r in zip(calls, hres[0]):
+        want = fres[distinct.index(c)][0]
+        d = _hist_diff(c, r, want)
+        print("  %s -> %s" % (_kind_text(c), {k: r.get(k) for k in HIST_FIELDS[c["fn"]]} if r.get("ok") else "raises " + _rs(r)))
+        if d is not None:
+            ok = False
+            print("     FAILS: %s" % d[1])
+    return ok
+
+
 def replay(ctx, data):
     rp = data["replay"]
+    if rp.get("kind") == "history":
+        return _replay_history(ctx, rp)
     _tables(ctx)
     rec = process((rp["formula"], rp.get("basis_name", "?"), rp["basis"], rp["points"], "full"))
     _uninstall()
